@@ -46,6 +46,7 @@ type creq struct {
 	RspID    string
 	Cancels  int // OnCancel invocations for this id
 	Answered bool
+	MaybeDefect bool // ended with an error after a defective member bearing its id had been sent
 }
 
 type cop struct {
@@ -54,6 +55,7 @@ type cop struct {
 	Reqs    []*creq
 	CtxKind int // 0 background, 1 cancelled at a quiescent point, 2 deadline, 3 cancelled by a racing task, 4 already cancelled when invoked, 5 deadline that expires at whatever moment the scheduler gives the task that fires it
 	BigParams bool
+	ClockFired bool // kind 2: the deadline expired at a moment the workload did not choose
 	Cause   bool // created with WithCancelCause / WithTimeoutCause and a custom cause
 	CancelAfter int // kind 3: scheduling steps the cancelling task waits first
 	Gate    bool
@@ -416,6 +418,12 @@ func (w *cliWorld) runOp(op *cop) {
 	}
 	op.ErrS = errStr(op.Err)
 	op.Returns++
+	if op.CtxKind == 2 && op.CancelSeq < 0 && ctx.Err() != nil {
+		// the deadline passed on the fake clock without the workload's doing (the
+		// clock also moves for timers of the library): when exactly is not known
+		op.ClockFired = true
+		op.CancelSeq, op.CancelEnd = w.seq(), w.seq()
+	}
 	op.Return = w.seq()
 	op.Done = true
 	w.r.Ev("op.return", fmt.Sprint(op.Kind, op.Idx), 0, 0, op.ErrS)
@@ -498,11 +506,10 @@ func (w *cliWorld) peerSaw(raw string) {
 				`{"jsonrpc":"2.0","id":null,"result":{"r":"nullid%d"}}`,
 				`{"jsonrpc":"2.0","result":{"r":"noid%d"}}`,
 				`{"jsonrpc":"2.0","id":"` + ob.ID + `","result":{"r":"stringified%d"}}`,
-				`{"jsonrpc":"2.0","id":` + ob.ID + `.0,"result":{"r":"fractional%d"}}`,
 				`{"jsonrpc":"2.0","id":[` + ob.ID + `],"result":{"r":"arrayid%d"}}`,
 				`"just a string"`,
 				`{"jsonrpc":"2.0","id":` + ob.ID + `0000,"error":{"code":1,"message":"otherid%d"}}`,
-			}[g.Int("oddrecord", 9)]
+			}[g.Int("oddrecord", 8)]
 			if strings.Contains(odd, "%d") {
 				odd = fmt.Sprintf(odd, w.nrep)
 			}
@@ -603,7 +610,9 @@ func (w *cliWorld) peerSender() {
 		}
 		if w.malformedAt >= 0 && w.peerOutN == w.malformedAt {
 			w.peerOutN++
-			w.causes = append(w.causes, stopCause{Kind: "malformed", Begin: w.seq(), End: -1})
+			// an undecodable record may, but need not, end the client (C05 names
+			// "closed" and "channel failed" as the ends; garbage is neither)
+			w.causes = append(w.causes, stopCause{Kind: "malformed", Begin: w.seq(), End: -1, Optional: true})
 			w.r.Fault("malformed-inbound-record")
 			w.pEnd.Send([]byte(`{"jsonrpc":"2.0","id":1,"result":`))
 			continue
